@@ -38,8 +38,13 @@ C = {
                "concurrent instances, mutable defaults", "dataclass constructors modelled from the real field lists; attribute reads on objects assumed present"),
  "C09": (None, "after every run_to_completion on generated programs x exhaustive short histories (incl. JSON save/restore and simulated idle time): no pending internal "
                "event, heads parked on waits, no dangling uids, dispatch index == from-scratch scan", "bounds in evidence"),
- "C10": (None, "termination of process_events (step bound + hard timeout) and fault containment for an erroneous expression at every statement position with "
-               "unrelated reactor flows", "bounds in evidence"),
+ "C10": ("the `except Exception` handler of _advance_head_front (block contract on its statements): for every exception object and every element the "
+         "head may stand on (with or without source information) the handler raises nothing, queues exactly one internal event, that event is a "
+         "ColangError carrying the exception's type name and message, and the flow is marked aborted",
+         "termination of process_events (step bound + hard timeout) and fault containment for an erroneous expression at every statement position with "
+         "unrelated reactor flows",
+         "A-POS: when the try body raises the head stands on an element of its flow (precondition of the block, not verified); everything outside the "
+         "handler (slide, _abort_flow, the match-time evaluation that has no handler at all: known findings) and termination are bounded only"),
  "C11": (None, "save/restore at every cut point and simulated idle time on programs holding sets, nested containers, flow/action/event references: same outgoing events, "
                "shared references stay shared", "bounds in evidence"),
  "C12": ("Colang 1.0 post-passes (heap mode, all inputs): _resolve_gotos turns every goto into a relative jump that lands exactly on the element that was its "
